@@ -16,6 +16,7 @@ package baggage
 //@   ensures r ==> 0 <= c && c < 128
 //@   modifies
 //@ func shouldEscape(c byte) (r bool)
+//@   pure
 //@   ensures c == '%' ==> r
 //@   ensures !r ==> c < 128
 //@   modifies
@@ -141,3 +142,19 @@ package baggage
 //@   ensures err == nil ==> len(r.list) <= 180
 //@   ensures err == nil ==> (forall k string : has(r.list, k) ==> len(k) > 0 && utf8valid(r.list[k].Value))
 //@   loop#1 invariant b != nil && fresh(b) && (forall k string : has(b, k) ==> len(k) > 0 && utf8valid(b[k].Value))
+
+// ======================================================================== C11 valueEscape: serialisation never panics
+// escUpto(t, i) = number of bytes of t before offset i that must be escaped (uninterpreted; pinned by its value at 0, its step and
+// - a consequence by induction, assumed - its monotonicity). The output buffer is exactly len(s) + 2*escUpto(s, len(s)) bytes and the
+// write index never leaves it: j == i + 2*escUpto(s, i) at the head of the second loop.
+//@ spec escUpto(t string, i int) int
+//@ axiom esc_zero: forall t string : escUpto(t, 0) == 0
+//@ axiom esc_step: forall t string : forall i int : 0 <= i && i < len(t) ==> escUpto(t, i + 1) == escUpto(t, i) + ite(shouldEscape(t[i]), 1, 0)
+//@ axiom esc_mono: forall t string : forall i int : forall k int : 0 <= i && i <= k && k <= len(t) ==> escUpto(t, i) <= escUpto(t, k)
+//@ func valueEscape(s string) (r string)
+//@   overflow assumed
+//@   ensures escUpto(s, len(s)) == 0 ==> r == s
+//@   ensures len(r) == len(s) + 2 * escUpto(s, len(s))
+//@   modifies
+//@   loop#1 invariant 0 <= i && i <= len(s) && hexCount == escUpto(s, i)
+//@   loop#2 invariant 0 <= i && i <= len(s) && j == i + 2 * escUpto(s, i) && len(t) == required && required == len(s) + 2 * hexCount && hexCount == escUpto(s, len(s))
